@@ -69,7 +69,7 @@ def c02():
     chk = Check("C02", "model_checking")
     chk.mc(_fam(chk.tier), "SpecCore", _core_consts(),
            ["Inv_Tracking", "Inv_SemiActive", "Inv_Makespan"], timeout=3000)
-    behs, _ = tlc_behaviours("c02", fam="FamA", filt="FiltB", resets=1, mode="complete", simulate=f"num={_n(chk, 400, 3000)}", workers=4)
+    behs, _ = tlc_behaviours("c02", fam="FamA", filt="FiltB", resets=1, faults=2, mode="complete", simulate=f"num={_n(chk, 400, 3000)}", workers=4)
     # a HistoryObserver subscribed from the start, so that the recorded history can be replayed
     for b in behs:
         b["kinds"] = ["hist"]
@@ -80,7 +80,7 @@ def c02():
     rng = random.Random(chk.seed + 2)
     rb = []
     for _ in range(_n(chk, 150, 1500)):
-        b = random_behaviour(rng, resets=0.03, max_jobs=5, max_ops=5, max_m=4)
+        b = random_behaviour(rng, resets=0.03, faults=0.15, max_jobs=5, max_ops=5, max_m=4)
         b["kinds"] = ["hist"]
         b["hist"] = [{"a": "Create", "o": 1}] + b["hist"]
         rb.append(b)
@@ -177,6 +177,8 @@ def c07():
             out += [[r.choice(scenarios.FILTERS) for _ in range(3)] for _ in range(4)]
         return out
 
+    from . import model as _model
+    _model.FILTER_STYLE["mix"] = True       # names / enum members / functions, lists / generators / iterators
     n = _run_traces(chk, behs, "tlc-simulated-filter-probes", filter_probe=fprobe)
     rng = random.Random(chk.seed + 7)
     rb = [random_behaviour(rng, max_jobs=4, max_ops=4, max_m=3) for _ in range(_n(chk, 80, 800))]
